@@ -1778,3 +1778,37 @@ def _selftest(pycoro2coq):                      # replaces the first-batch self-
             f'self-test: the generated definition disagrees with the real coroutine on {len(bad)} of {len(terms)} inputs, '
             f'first: {used[bad[0]]}')
     return {'evaluations': len(terms), 'disagreements': 0}
+
+
+# ---- translator tie, third batch (added): auto_th ----------------------------------------------------------------------
+TIE_STAGES2['auto_th'] = [('check_autoth ', 'gcheck_auto_th ')]
+TRUSTED = TRUSTED + [
+    'translate/pycoro2coq.py, auto_th: a coroutine that spools before its main loop (`x = (yield)`; pinned set-up; `while <test>: '
+    'x = concat((x, (yield)), axis=-1)`; set-up; `while True: ..; x = (yield)`) becomes a three-phase step over the state '
+    'option (blk A) + T (inl None: nothing received, inl (Some data): spooling, inr threshold: running).  PINNED: fs read from the '
+    'first chunk and baseline_samples = int(np.round(baseline * fs)) -> abstract input; the threshold line '
+    '`data[..., :baseline_samples].view(np.ndarray).std() * n` -> abstract thr of the first baseline_samples samples; log.info, '
+    'auto_th_cb, the `th` / th_cb lambdas (mode, current_th_cb) -> abstract comparison ge; `result.metadata["auto_th"] = th` dropped '
+    '(the harness ignores that metadata key).  Self-test: 60 + 70 + 16 inputs.']
+_tie_cases2_batch2 = _tie_cases2
+
+
+def _tie_cases3():
+    import random
+    rng = random.Random(20261003)
+    out = []
+    shapes = [[3, 3, 4], [1, 0, 1, 1, 5, 0, 2], [7], [0, 2, 6, 1], [2, 2, 2, 2, 3], [5, 1, 1, 9], [0, 0, 4, 4], [1, 1]]
+    ps = [{'B': 2, 'nsd': 1, 'mode': 'positive'}, {'B': 4, 'nsd': 2, 'mode': 'negative'}, {'B': 7, 'nsd': 1, 'mode': 'both'},
+          {'B': 12, 'nsd': 1, 'mode': 'positive'}]
+    k = 0
+    for two in (False, True):
+        for ann in (False, True):
+            for _ in range(4):
+                p, sizes = dict(ps[k % len(ps)], fsarg='value'), shapes[k % len(shapes)]
+                k += 1
+                out.append(_case('auto_th', p, two, ann, sizes, rng))
+    return out
+
+
+def _tie_cases2():                               # replaces the second-batch list: second and third batch
+    return _tie_cases2_batch2() + _tie_cases3()
